@@ -56,6 +56,66 @@ func ruleDateRepair(c *Ctx, rule string) {
 		default:
 			c.Pass(rule, key, desc, c.P.ShortName(fn))
 		}
+		// a Date that parses is left alone: the only decisions in front of the Set are the decoder's validity flag and a
+		// zero test of the decoded time
+		var setBlocks []*ssa.BasicBlock
+		instrsOf(fn, func(in ssa.Instruction) {
+			if isSetDate(in) {
+				setBlocks = append(setBlocks, in.Block())
+			}
+		})
+		other := ""
+		for _, b := range fn.Blocks {
+			if len(b.Instrs) == 0 {
+				continue
+			}
+			iff, ok := b.Instrs[len(b.Instrs)-1].(*ssa.If)
+			if !ok {
+				continue
+			}
+			leads := false
+			for _, sb := range setBlocks {
+				if reachableAvoiding(b, sb, nil) {
+					leads = true
+				}
+			}
+			if !leads {
+				continue
+			}
+			var leaves []ssa.Value
+			var split func(v ssa.Value)
+			split = func(v ssa.Value) {
+				if u, ok := v.(*ssa.UnOp); ok && u.Op == token.NOT {
+					split(u.X)
+					return
+				}
+				if phi, ok := v.(*ssa.Phi); ok {
+					for _, e := range phi.Edges {
+						if _, isC := e.(*ssa.Const); !isC {
+							split(e)
+						}
+					}
+					return
+				}
+				leaves = append(leaves, v)
+			}
+			split(iff.Cond)
+			for _, lf := range leaves {
+				if a, _, ok := c.An.AtomOf(lf); ok && strings.HasPrefix(a.Key, "ret:") && strings.HasSuffix(a.Key, "#1") {
+					continue
+				}
+				if call, ok := lf.(*ssa.Call); ok && callIsMethod(&call.Call, "time", "Time", "IsZero") {
+					continue
+				}
+				other = fmt.Sprintf("%s `%s`", c.P.Pos(lf.Pos()), lf.String())
+			}
+		}
+		dk := "a Date field that parses is never overwritten (only an invalid or zero Date is repaired)"
+		if other != "" {
+			c.Fail(rule, "date-kept fn="+c.P.ShortName(fn), dk, c.P.ShortName(fn)+": the repair also depends on "+other+"; e.g. an origin whose clock runs ahead has its valid Date replaced by the local time, on the forwarded response and on every replay")
+		} else {
+			c.Pass(rule, "date-kept fn="+c.P.ShortName(fn), dk, c.P.ShortName(fn))
+		}
 		// the value written is in UTC with the HTTP time format (a local-time stamp labelled GMT ages entries by the zone offset)
 		okUTC := false
 		instrsOf(fn, func(in ssa.Instruction) {
@@ -934,5 +994,247 @@ func ruleIndexValuesUTF8Safe(c *Ctx, rule string) {
 		c.Pass(rule, "index-values-utf8-safe", desc, c.P.ShortName(norm)+": every returned value is validated or ASCII-encoded")
 	} else {
 		c.Fail(rule, "index-values-utf8-safe", desc, c.P.ShortName(norm)+": returns request bytes that were never checked for valid UTF-8 ("+why+"); `X-Flavor: caf\\xe9` comes back from the JSON index as `caf\\ufffd`, never matches again, and each request appends one more reference")
+	}
+}
+
+// ruleHeuristicStatuses (C01.5 / C06.4): the statuses that get a heuristic lifetime (and are storable without explicit
+// freshness information) are a subset of RFC 9110 §15.1's heuristically cacheable statuses.
+func ruleHeuristicStatuses(c *Ctx, rule string) {
+	if !c.Need(rule, "heurStatus") {
+		return
+	}
+	heur := c.A.F("heurStatus")
+	desc := "only statuses that RFC 9110 §15.1 defines as heuristically cacheable get a heuristic lifetime"
+	tc, _, err := c.An.IntTable(heur, 0, 999)
+	if err != nil {
+		c.Undecided(rule, "heuristic-statuses", desc, err.Error())
+		return
+	}
+	allowed := map[int64]bool{}
+	for _, k := range oracleHeuristic {
+		allowed[k] = true
+	}
+	// 304 is listed by this code base but can never reach the table as a stored status: a 304 is never written to the
+	// store (decided by C06.1, row "304-never-stored"), so its membership has no behaviour
+	allowed[304] = true
+	var extra []string
+	var have []string
+	for _, k := range tc {
+		have = append(have, fmt.Sprint(k))
+		if !allowed[k] {
+			extra = append(extra, fmt.Sprint(k))
+		}
+	}
+	if len(extra) > 0 {
+		c.Fail(rule, "heuristic-statuses", desc, c.P.ShortName(heur)+": also true for "+strings.Join(extra, ", ")+"; e.g. a bare 307/302 with an old Last-Modified is stored and reused for 10% of its age without ever asking the origin", have...)
+		return
+	}
+	c.Pass(rule, "heuristic-statuses", desc, have...)
+}
+
+// ruleEvaluatorRequestDirectives (C06.9 / C08.7): whether a response may be stored depends on the request only through
+// `no-store` (RFC 9111 §3, §5.2.1.5). In particular request `no-cache` / `max-age` ask for validation, not for the
+// validated response to be thrown away: if they made the evaluator say no, a 200 that replaces a stored representation
+// after such a validation would not be written and the old representation would keep being served.
+func ruleEvaluatorRequestDirectives(c *Ctx, rule string) {
+	if !c.Need(rule, "canStore") {
+		return
+	}
+	cs := c.A.F("canStore")
+	desc := "the storability decision consults no request directive other than no-store"
+	var seen, bad []string
+	for g := range c.P.StaticTree(cs) {
+		instrsOf(g, func(in ssa.Instruction) {
+			call, ok := in.(*ssa.Call)
+			if !ok {
+				return
+			}
+			sc := call.Call.StaticCallee()
+			if sc == nil {
+				return
+			}
+			di, isAcc := c.A.DirAcc[sc]
+			if !isAcc || di.Class != "rq" {
+				return
+			}
+			w := fmt.Sprintf("%s@%s rq.%s", c.P.ShortName(g), c.P.InstrPos(in), di.Directive)
+			seen = append(seen, w)
+			if di.Directive != "no-store" {
+				bad = append(bad, w)
+			}
+		})
+	}
+	sort.Strings(seen)
+	sort.Strings(bad)
+	if len(bad) > 0 {
+		c.Fail(rule, "evaluator-request-directives", desc, strings.Join(bad, "; ")+": a full 200 answering a validation that this request directive forced is judged not storable, the replaced representation stays in the store and later requests are served the old body as a HIT", seen...)
+		return
+	}
+	if len(seen) == 0 {
+		c.Undecided(rule, "evaluator-request-directives", desc, "the evaluator consults no request directive at all (request no-store is not honoured)")
+		return
+	}
+	c.Pass(rule, "evaluator-request-directives", desc, seen...)
+}
+
+// ruleExpiresMinusDate (C01.11 / C09.7): the lifetime taken from Expires is Expires minus the response's Date (RFC 9111
+// §4.2.1), not Expires minus a local timestamp: in the freshness function, the difference whose minuend is the decoded
+// Expires field has the decoded Date field as its subtrahend.
+func ruleExpiresMinusDate(c *Ctx, rule string) {
+	if !c.Need(rule, "freshness") {
+		return
+	}
+	ff := c.A.F("freshness")
+	desc := "the Expires-based lifetime is Expires minus Date (both from the stored response)"
+	readsHeader := func(call *ssa.Call, key string) bool {
+		if callIsMethod(&call.Call, "net/http", "Header", "Get") {
+			_, a := recvAndArgs(&call.Call)
+			s, ok := constStr(a[0])
+			return ok && s == key
+		}
+		for _, f := range c.P.RepoCallees(call) {
+			for g := range c.P.StaticTree(f) {
+				if headerCallWithKey(g, "Get", key) {
+					return true
+				}
+			}
+		}
+		return false
+	}
+	n := 0
+	instrsOf(ff, func(in ssa.Instruction) {
+		call, ok := in.(*ssa.Call)
+		if !ok || !callIsMethod(&call.Call, "time", "Time", "Sub") {
+			return
+		}
+		recv, args := recvAndArgs(&call.Call)
+		if !c.An.dependsOnCall(recv, func(cc *ssa.Call) bool { return readsHeader(cc, "Expires") }) {
+			return
+		}
+		n++
+		where := c.P.InstrPos(in) + " `" + in.String() + "`"
+		if c.An.dependsOnCall(args[0], func(cc *ssa.Call) bool { return readsHeader(cc, "Date") }) {
+			c.Pass(rule, "expires-minus-date", desc, where)
+		} else {
+			c.Fail(rule, "expires-minus-date", desc, where+": the subtrahend is not the stored response's Date; with a Date older than the time of receipt (a response relayed by another cache, a lagging origin clock) the gap is taken off the lifetime and counted in the age, so the entry is stale while the clock is still before Expires")
+		}
+	})
+	if n == 0 {
+		c.Undecided(rule, "expires-minus-date", desc, "no time difference with the decoded Expires as minuend in "+c.P.ShortName(ff))
+	}
+}
+
+// ruleIndexHandedOn (C09.8 / C19.6): when the variant index was read without error and is not empty, every call in
+// RoundTrip that hands a variant list on (to the miss, hit and store paths) hands on that list, never a nil one: a nil list
+// makes the storer write a one-element index, so the references to all other stored variants are lost (they are never
+// hit again, and their entries are never invalidated).
+func ruleIndexHandedOn(c *Ctx, rule string) {
+	if !c.Need(rule, "readIndex") {
+		return
+	}
+	root := c.A.Root
+	desc := "with a readable, non-empty index no nil variant list is handed on by RoundTrip"
+	assume := map[string]bool{"nil:err": true, "cmp:len==0": false}
+	pr := c.An.Prune(root, AssumeKeys(assume))
+	n, bad := 0, ""
+	var sites []string
+	instrsOf(root, func(in ssa.Instruction) {
+		call := callOf(in)
+		if call == nil {
+			return
+		}
+		for _, a := range call.Args {
+			sl, ok := a.Type().Underlying().(*types.Slice)
+			if !ok || !isPtrToNamed(sl.Elem(), c.A.RefT) {
+				continue
+			}
+			n++
+			k, isConst := a.(*ssa.Const)
+			live := pr.LiveBlock[in.Block().Index]
+			sites = append(sites, fmt.Sprintf("%s nil=%v live=%v", c.P.InstrPos(in), isConst && k.Value == nil, live))
+			if isConst && k.Value == nil && live {
+				bad = c.P.InstrPos(in)
+			}
+		}
+	})
+	if n == 0 {
+		c.Undecided(rule, "index-handed-on", desc, "RoundTrip passes no variant list on")
+		return
+	}
+	if !pr.Used["nil:err"] && !pr.Used["cmp:len==0"] {
+		c.Undecided(rule, "index-handed-on", desc, "RoundTrip tests neither the index read error nor the emptiness of the list", sites...)
+		return
+	}
+	if bad != "" {
+		c.Fail(rule, "index-handed-on", desc, bad+": a nil list is handed on although the index was read and is not empty; after storing variant B the index lists B alone, a later request for the still fresh variant A goes to the origin, and alternating variants never hit", sites...)
+		return
+	}
+	c.Pass(rule, "index-handed-on", desc, sites...)
+}
+
+// ruleResidentTime (C01.4 / C11.2): RFC 9111 §4.2.3: response_delay = response_time - request_time and
+// resident_time = now - response_time. In the current-age function the time parameter that is the minuend of the
+// parameter-minus-parameter difference (the response time) is the one the clock is asked about; measuring from the request
+// time counts the response delay twice.
+func ruleResidentTime(c *Ctx, rule string) {
+	if !c.Need(rule, "currentAge") {
+		return
+	}
+	ca := c.A.F("currentAge")
+	desc := "resident time is measured from the response time (the minuend of response_time - request_time)"
+	isTimeParam := func(v ssa.Value) *ssa.Parameter {
+		p, ok := c.An.canon(v).(*ssa.Parameter)
+		if ok && p.Parent() == ca && typeIs(p.Type(), "time", "Time") {
+			return p
+		}
+		return nil
+	}
+	var respTime *ssa.Parameter
+	ambiguous := false
+	instrsOf(ca, func(in ssa.Instruction) {
+		call, ok := in.(*ssa.Call)
+		if !ok || !callIsMethod(&call.Call, "time", "Time", "Sub") {
+			return
+		}
+		recv, args := recvAndArgs(&call.Call)
+		x, y := isTimeParam(recv), isTimeParam(args[0])
+		if x == nil || y == nil {
+			return
+		}
+		// Date is also a time parameter: response_time - date (apparent age) has the same minuend
+		if respTime != nil && respTime != x {
+			ambiguous = true
+		}
+		respTime = x
+	})
+	if respTime == nil || ambiguous {
+		c.Undecided(rule, "resident-time", desc, "no unique minuend of parameter-minus-parameter differences in "+c.P.ShortName(ca))
+		return
+	}
+	n := 0
+	instrsOf(ca, func(in ssa.Instruction) {
+		call, ok := in.(*ssa.Call)
+		if !ok {
+			return
+		}
+		var arg ssa.Value
+		switch {
+		case call.Call.IsInvoke() && call.Call.Method.Name() == "Since" && len(call.Call.Args) == 1:
+			arg = call.Call.Args[0]
+		case callIsPkgFunc(&call.Call, "time", "Since"):
+			arg = call.Call.Args[0]
+		default:
+			return
+		}
+		n++
+		where := c.P.InstrPos(in) + " `" + in.String() + "`"
+		if isTimeParam(arg) == respTime {
+			c.Pass(rule, "resident-time", desc, where)
+		} else {
+			c.Fail(rule, "resident-time", desc, where+": the clock is not asked about "+respTime.Name()+"; the response delay is counted twice, so every served Age is too high by the delay and entries go stale early")
+		}
+	})
+	if n == 0 {
+		c.Undecided(rule, "resident-time", desc, "no Since call in "+c.P.ShortName(ca))
 	}
 }
